@@ -449,10 +449,34 @@ def collect_inputs_for_node(
     Returns:
         Dict mapping input names to their values
     """
+    from hypergraph.nodes.graph_node import GraphNode
+
     inputs = {}
     for param in node.inputs:
+        if isinstance(node, GraphNode) and _nested_run_resolves_default(param, node, graph, state, provided_values):
+            continue
         inputs[param] = _resolve_input(param, node, graph, state, provided_values)
     return inputs
+
+
+def _nested_run_resolves_default(
+    param: str,
+    node: Any,
+    graph: Graph,
+    state: GraphState,
+    provided_values: dict[str, Any],
+) -> bool:
+    """True when a GraphNode input would only be filled from an inner signature default.
+
+    The nested run resolves (and deep-copies) its own defaults, once per run.
+    Resolving it here instead would hand ONE copy to every item of a mapped
+    GraphNode, so items would see each other's mutations of the default.
+    A mapped parameter is still resolved here: its list is what gets mapped.
+    """
+    if node.map_config and param in node.map_config[0]:
+        return False
+    source, _ = get_value_source(param, node, graph, state, provided_values)
+    return source == ValueSource.DEFAULT
 
 
 def _resolve_input(
